@@ -13,6 +13,7 @@ import (
 	"sort"
 	"strings"
 	"sync"
+	"time"
 
 	"github.com/dolthub/dolt/go/store/blobstore"
 	"github.com/dolthub/dolt/go/store/chunks"
@@ -35,6 +36,7 @@ type kase struct {
 }
 
 var ctx = context.Background()
+var hung = map[string]bool{}
 
 func blobOf(size int) []byte {
 	b := make([]byte, size)
@@ -90,13 +92,28 @@ func wantRange(data []byte, off, length int64) (out []byte, defined bool) {
 func runRange(e *hx.Env, m *hx.Model, s *stores, k kase) {
 	data := blobOf(k.Size)
 	key := s.ensure(k.Store, k.Size)
-	got := hx.Recover(func() string {
-		b, _, err := blobstore.GetBytes(ctx, s.get(k.Store), key, blobstore.NewBlobRange(k.Off, k.Len))
-		if err != nil {
-			return "error"
-		}
-		return "ok " + hx.Hex(b)
-	})
+	if hung[k.Store] {
+		return
+	}
+	done := make(chan string, 1)
+	go func() {
+		done <- hx.Recover(func() string {
+			b, _, err := blobstore.GetBytes(ctx, s.get(k.Store), key, blobstore.NewBlobRange(k.Off, k.Len))
+			if err != nil {
+				return "error"
+			}
+			return "ok " + hx.Hex(b)
+		})
+	}()
+	var got string
+	select {
+	case got = <-done:
+	case <-time.After(10 * time.Second):
+		// a reader that never reaches EOF: report and stop reading from this store (the goroutine is lost)
+		hung[k.Store] = true
+		e.Rep.Violate("range-read-hangs:"+k.Store, fmt.Sprintf("%s Get(size %d, offset %d, length %d): reading the returned range does not terminate", k.Store, k.Size, k.Off, k.Len), k)
+		return
+	}
 	if strings.HasPrefix(got, "panic") {
 		got = "panic"
 	}
@@ -161,6 +178,40 @@ func runArith(e *hx.Env, m *hx.Model, k kase) {
 		e.Rep.Disagree(k, got, mod, "positiveRange")
 	}
 	h := "h:" + blobstore.VerifRangeHeader(k.Off, k.Len)
+	// oracle: an RFC 7233 server applying the header to the blob must select the documented range
+	// (checked where the header form is a valid byte-range-spec and carries the whole request:
+	// first-last, suffix with length 0, and no header for the whole blob)
+	if k.Off <= size && k.Off >= -size {
+		data := blobOf(k.Size)
+		want, _ := wantRange(data, k.Off, k.Len)
+		var sel []byte
+		checked := true
+		var a, b int64
+		switch {
+		case h == "h:":
+			sel = data
+		case k.Off >= 0 && k.Len > 0:
+			if n, _ := fmt.Sscanf(h, "h:bytes=%d-%d", &a, &b); n != 2 || a > b {
+				sel = nil
+			} else if a >= size {
+				sel = []byte{}
+			} else {
+				sel = data[a:min(b+1, size)]
+			}
+		case k.Off < 0 && k.Len == 0:
+			if n, _ := fmt.Sscanf(h, "h:bytes=-%d", &a); n != 1 {
+				sel = nil
+			} else {
+				sel = data[size-min(a, size):]
+			}
+		default:
+			checked = false
+		}
+		if checked && !bytes.Equal(sel, want) {
+			e.Rep.Violate("range-header", fmt.Sprintf("asHttpRangeHeader(offset %d, length %d) = %q selects %x on a blob of size %d, documented range is %x", k.Off, k.Len, h[2:], sel, size, want), k)
+			return
+		}
+	}
 	hm := m.Ask(fmt.Sprintf("hdr %d %d", k.Off, k.Len))
 	e.Rep.Hit("arith:hdr")
 	if h != hm {
